@@ -166,9 +166,10 @@ func runC17(t *core.Tape, st *core.Stats) *core.Violation {
 	}
 
 	nset := 0
-	stop := t.Range(3, 40)
+	maxOps := t.Bound(40, 100)
+	stop := t.Range(3, maxOps)
 
-	for i := 0; i < 40 && t.More(stop); i++ {
+	for i := 0; i < maxOps && t.More(stop); i++ {
 		var (
 			field string
 			val   interface{}
